@@ -142,6 +142,11 @@ class Registry:
         used = getattr(E, "used_externs", None)
         if used is not None:
             used.add(name)
+        if E.ext_may_raise and (name.startswith("sklearn.") or name.startswith("pyx:") or name.startswith("scipy.")
+                                or name.startswith("pandas.")) and not name.endswith("__init__"):
+            # C02: a call into a dependency may fail at this point (one exceptional path, unconstrained error)
+            if E.choose([None, None]) == 1:
+                raise Raised("ExternalError", (name,), node, "external")
         if fn.self_obj is not None:
             return f(E, fn.self_obj, *args, **kwargs)
         return f(E, *args, **kwargs)
